@@ -14,6 +14,7 @@ import (
 	"sync"
 
 	"github.com/influxdata/influxdb/pkg/file"
+	"github.com/influxdata/influxdb/pkg/verifhook"
 	"github.com/influxdata/influxdb/tsdb"
 )
 
@@ -390,6 +391,9 @@ func (t *Tombstoner) commit() error {
 
 	tmpFilename := t.pendingFile.Name()
 	t.pendingFile.Close()
+	if verifhook.Enabled {
+		verifhook.Point("file.synced", tmpFilename)
+	}
 
 	if err := t.obs.FileFinishing(tmpFilename); err != nil {
 		return err
@@ -398,9 +402,15 @@ func (t *Tombstoner) commit() error {
 	if err := file.RenameFile(tmpFilename, t.tombstonePath()); err != nil {
 		return err
 	}
+	if verifhook.Enabled {
+		verifhook.Point("fs.renamed", tmpFilename, t.tombstonePath())
+	}
 
 	if err := file.SyncDir(filepath.Dir(t.tombstonePath())); err != nil {
 		return err
+	}
+	if verifhook.Enabled {
+		verifhook.Point("fs.syncdir", filepath.Dir(t.tombstonePath()))
 	}
 
 	t.pendingFile = nil
